@@ -154,13 +154,17 @@ Definition dispatch (f : Z) (x : sx) : sx :=
         (if k =? 0 then e_position e a
          else if k =? 1 then e_value_position e (VOff a)
          else e_value_position e (VTuple a b))
-  | 5 => (* lint_properties: [j0; text; ref_text?; checker?]  checker = results by start offset *)
+  | 5 => (* text-level lint: [j0; text; ref_text?; checker?; format]  checker = results by
+            start offset; format 0 .properties, 1 .ini *)
       let res := to_option to_results (nth_sx 3 x) in
+      let chk := option_map (fun r => (fun (e : @entity str) (_ : @entity str) =>
+                                 match assoc Nat.eqb (e_id e) r with Some l => l | None => [] end)) res in
+      let j0 := to_nat (nth_sx 0 x) in
+      let text := to_str (nth_sx 1 x) in
+      let ref := to_option to_str (nth_sx 2 x) in
       of_result (of_list of_finding_s)
-        (lint_properties (to_nat (nth_sx 0 x))
-           (option_map (fun r => (fun (e : @entity str) (_ : @entity str) =>
-                                    match assoc Nat.eqb (e_id e) r with Some l => l | None => [] end)) res)
-           (to_str (nth_sx 1 x)) (to_option to_str (nth_sx 2 x)))
+        (if to_Z (nth_sx 4 x) =? 1 then lint_ini j0 chk text ref
+         else lint_properties j0 chk text ref)
   | _ => sx_err
   end.
 
